@@ -231,7 +231,17 @@ class SymInterp:
             raise _Break()
         if isinstance(s, ast.Return):
             raise Return(self.ev(s.value, env) if s.value is not None else None)
-        if isinstance(s, (ast.Assert, ast.Pass, ast.Nonlocal, ast.Global)):
+        if isinstance(s, ast.Assert):
+            # opt-in (check_asserts): an assertion whose test folds to exactly False on the symbolic operands is an exception of the analysed code
+            if getattr(self, "check_asserts", False):
+                try:
+                    ok = self.ev(s.test, env)
+                except AnalysisError:
+                    ok = None
+                if ok is False:
+                    raise SymRaise(f"AssertionError: {unparse(s.test)[:80]}")
+            return
+        if isinstance(s, (ast.Pass, ast.Nonlocal, ast.Global)):
             return
         if isinstance(s, ast.FunctionDef):
             node = s
@@ -319,6 +329,8 @@ class SymInterp:
             if isinstance(v, Blob):
                 return Blob(f"{v._name}.{e.attr}")
             if isinstance(v, Sym):
+                if e.attr == "__dict__":
+                    return v.__dict__
                 if e.attr in v.__dict__:
                     return v.__dict__[e.attr]
                 if isinstance(getattr(type(v), e.attr, None), property):
